@@ -1,7 +1,8 @@
 ID = "C12"
 LEVEL = "proof"
 TAGS = ("C12",)
-CONTRACT_MODULES = ["contracts.geometry", "contracts.axis", "contracts.state", "contracts.plugin"]
+from props.common import ALL_CONTRACTS
+CONTRACT_MODULES = ALL_CONTRACTS
 P = "__init__.ExcludeRegionPlugin."
 S = "ExcludeRegionState.ExcludeRegionState."
 FUNCTIONS = [P + "on_api_command", P + "_handleAddExcludeRegion", P + "_handleDeleteExcludeRegion",
